@@ -74,6 +74,9 @@ def run_c07(script, rng, summary):
         return {"what": f"the two optimisers disagree: {a['value']} vs {b['value']}", "runs": [a, b]}
     if a.get("result") is False and a.get("base_status") == "sat":
         return {"what": "incremental optimiser reports no solution on a satisfiable problem", "runs": [a]}
+    v = worst_first_probe(script, real, rng, summary, "run_c07")
+    if v:
+        return v
     # early stops: still valid, and no better than the optimum
     k = rng.choice([1, 2, 3])
     c = smrun.run_real_solve(script, {"optimizer": "incremental", "max_iter": k})
@@ -83,6 +86,45 @@ def run_c07(script, rng, summary):
     if a.get("result") and c.get("result") is False and c.get("base_status") == "sat" and k >= 1:
         return {"what": f"max_iter={k}: no schedule returned although the first check is satisfiable", "runs": [a, c]}
     return None
+
+
+def worst_first_probe(script, real, rng, summary, tag):
+    """the incremental optimiser against a truthful z3 that always answers with the worst admissible model: every exit
+    of the loop (declared bound met, unsat after several improvements) is reached"""
+    bounded = bounded_objective_variant(script, real, rng)
+    for scr, how in ((script, "as generated"), (bounded, "with a declared, attainable bound")):
+        if scr is None or not objectives_of(scr):
+            continue
+        adv = smrun.adversarial_incremental_solve(scr)
+        if adv is None:
+            continue
+        count(summary, tag + "_worst_first_oracle")
+        if adv.get("raised"):
+            return {"what": f"incremental optimiser raised {adv['raised']} (worst-first oracle, {how})", "script": scr}
+        if adv.get("result") and adv.get("better_status") == "sat":
+            return {"what": f"incremental optimiser stopped at value {adv['value']} although a valid schedule with value "
+                            f"{adv['better_value']} exists and z3 had not answered unsat (z3 answering with the worst "
+                            f"admissible model each time; {how})", "script": scr, "oracle_answers": adv.get("answers")}
+        if adv.get("result"):
+            count(summary, f"{tag}_worst_first_iterations_{min(len(adv.get('answers', [])), 12)}")
+    return None
+
+
+def bounded_objective_variant(script, real, rng):
+    """the script without its objectives, plus an indicator start(T)+1 with the true, attainable bounds (1, H-d+1) and a
+    minimise / maximise objective over it (T a mandatory fixed-duration task)"""
+    H = real.problem.horizon
+    cands = [d for d in script if d["op"] == "task" and d["kind"][0] == "fixed" and not d.get("optional")]
+    if H is None or not cands:
+        return None
+    t = rng.choice(cands)
+    hi = H - t["kind"][1] + 1
+    if hi < 2:
+        return None
+    base = [d for d in script if d["op"] != "objective"]
+    ni = sum(1 for d in base if d["op"] == "indicator")
+    return base + [{"op": "indicator", "i": ("expr", "bounded_start", ("+", ("tstart", t["name"]), 1), (1, hi))},
+                   {"op": "objective", "o": (rng.choice(["minimizeIndicator", "maximizeIndicator"]), ni, 1)}]
 
 
 # ---------------------------------------------------------------------------------- helpers
@@ -143,8 +185,10 @@ def run_c12(script, rng, summary):
     count(summary, "run_c12")
     summary["nontrivial"].append("run" + str(hash(str(script))))
     seen = []
-    with smrun.silent():
-        s = ps.SchedulingSolver(problem=real.problem, max_time=10)
+    cfg = {"debug": True} if rng.random() < 0.3 else {}
+    count(summary, "run_c12_cfg:" + ("debug" if cfg else "default"))
+    with smrun.silent(), no_stderr():
+        s = ps.SchedulingSolver(problem=real.problem, max_time=10, **cfg)
         try:
             sol = s.solve()
             while sol and len(seen) <= len(truth) + 2:
@@ -200,6 +244,10 @@ def run_c13(script, rng, summary):
     multi_equiv = nobj > 1 and (cfg["optimizer"] == "incremental" or cfg.get("optimize_priority") == "weight")
     pool = ["solve", "solve", "solve", "findAnother", "findAnother", "export"] + ([] if multi_equiv else ["initialize"])
     ops = [rng.choice(pool) for _ in range(rng.randint(2, 5))]
+    if rng.random() < 0.3:
+        # ask for other schedules until the solver says there is none: that answer is checked too
+        ops = ["solve"] + ["findAnother"] * rng.randint(3, 9)
+        count(summary, "run_c13_enumeration_sequences")
     real = pslib.Real()
     real.run(script)
     count(summary, "run_c13")
@@ -207,6 +255,7 @@ def run_c13(script, rng, summary):
     blocked = []           # timings excluded by the caller so far
     have_model = False
     last = None
+    init_own = None        # the solver's assertions after its first initialisation
     with smrun.silent():
         s = ps.SchedulingSolver(problem=real.problem, max_time=10, **cfg)
         for i, op in enumerate(ops):
@@ -214,6 +263,7 @@ def run_c13(script, rng, summary):
                 if op == "initialize":
                     s.initialize()
                     blocked = []
+                    init_own = list(s._solver.assertions())
                     continue
                 if op == "export":
                     s.export_to_smt2("/dev/null")
@@ -234,6 +284,20 @@ def run_c13(script, rng, summary):
             for tm in blocked:
                 c2.add(differs_from(real0, tm))
             expect = str(c2.check())
+            # the solver's own assertions must exclude nothing but what the caller asked to exclude
+            own = list(s._solver.assertions())
+            if init_own is None or op == "solve" and not blocked:
+                init_own = init_own or own
+            c4 = z3.Solver()
+            c4.set("timeout", 15000)
+            c4.add(init_own)
+            for tm in blocked:
+                c4.add(differs_from(real, tm))
+            c4.add(z3.Not(z3.And(own)) if own else z3.BoolVal(False))
+            if c4.check() == z3.sat:
+                lost = model_timing(real, c4.model())
+                return {"what": f"after call {i} ({op}) of {ops} under {cfg} the solver excludes a valid schedule the caller "
+                                f"never asked to exclude", "lost_schedule": [list(x) for x in lost]}
             if sol:
                 bad = valid_for(script, s._model)
                 if bad:
@@ -255,6 +319,7 @@ CONFIGS = [
     {"parallel": True}, {"random_values": True}, {"debug": True}, {"verbosity": 1},
     {"logics": "QF_LIA"}, {"logics": "QF_UFLIA"}, {"optimizer": "optimize", "debug": True},
     {"random_values": True, "optimizer": "optimize"},
+    {"optimizer": "optimize", "logics": "QF_LIA"}, {"optimizer": "optimize", "optimize_priority": "lex", "logics": "QF_LIA"},
 ]
 
 
@@ -302,6 +367,8 @@ def run_c15(script, rng, summary):
         if r.get("result") and r.get("better_status") == "sat" and "max_iter" not in cfg:
             return {"what": f"configuration {cfg} returned value {r.get('value')} but {r.get('better_value')} is achievable",
                     "runs": outs}
+    if rng.random() < 0.5:
+        return worst_first_probe(script, real0, rng, summary, "run_c15")
     return None
 
 
@@ -337,6 +404,11 @@ def run_c19(script, rng, summary):
                  {"op": "constraint", "c": ("startAfter", t, 0, False), "name": "pin_b"}]
         if real.tasks[t].optional:
             extra.append({"op": "constraint", "c": ("forceSchedule", t, True), "name": "pin_c"})
+    if rng.random() < 0.2 and not real.tasks[t].optional:
+        # infeasible only through the (quantified) rules of a concurrent buffer: debug mode must not lose them
+        extra = [{"op": "buffer", "name": "Bdiag", "concurrent": True, "initial": 0, "lb": 0},
+                 {"op": "constraint", "c": ("unloadBuffer", t, "Bdiag", 2), "name": "pin_a"}]
+        count(summary, "run_c19_concurrent_buffer_conflict")
     if rng.random() < 0.25:
         extra = []          # leave the problem as generated (usually feasible): verdict part
     script2 = [d for d in script if d["op"] != "objective"] + extra
@@ -439,6 +511,12 @@ def run_c05(script, rng, summary, driver=None):
     tasks = list(real.tasks.values())
     for t in tasks:
         spec_solver.add(t._start >= -len(tasks) - 1, t._start <= H, t._end >= -len(tasks) - 1, t._end <= H)
+        if t.optional:
+            # documented meaning of "not scheduled": the task uses no resource - its busy intervals are empty and lie
+            # before time 0 (so that negated / xor-ed resource constraints cannot be satisfied through a phantom interval)
+            for res in t._required_resources:
+                lo, up = res._busy_intervals[t]
+                spec_solver.add(z3.Implies(z3.Not(t._scheduled), z3.And(lo == up, lo < 0)))
     count(summary, "run_c05")
     summary["nontrivial"].append("run" + str(hash(str(script))))
     checked = 0
